@@ -155,7 +155,7 @@ func init() {
 		"inputs are PRNG samples and structured mutations, not all byte strings; TLS listeners are not driven (the TLS record layer sits below the framing under test)",
 		"'never blocks indefinitely' is decided as: the virtual-time bubble becomes quiescent after each input (or the child is killed by the wall-clock watchdog and reported as hang with a goroutine dump)"),
 		Watchdog: map[string]time.Duration{"quick": 6 * time.Minute, "thorough": 60 * time.Minute},
-		Rule: "server cases: 200 hostile inputs per case (random, every 2-bit prefix x length-field extreme, ChannelData shapes, well-formed messages of every method/class signed or unsigned, signed-then-mutated, malformed-then-signed) delivered as UDP datagrams or as a TCP stream under random segmentation from a party that holds valid credentials, with a liveness probe after every 25 inputs (Binding from attacker and bystander, authenticated Refresh, relay both ways through a bystander's permission and channel, bystander snapshot unchanged, no mutex held); ; 3 of 40 cases: a real client against a scripted server that answers every Allocate / CreatePermission / ChannelBind with 438 and a fresh nonce for ever: each API call must give up after a bounded number of requests; 2 of 40 cases: a real client over a TCP control connection is fed garbage / cookie-less STUN / valid-then-garbage / truncated-then-EOF / out-of-range channel frames; stream inputs include maximum-length ChannelData and STUN frames (larger than the client's read buffer); 1 of 40 cases wraps the listener in TLS (crypto/tls over the simulated stream): parties that connect and send nothing, a few bytes, a record header, the start of a ClientHello or garbage linger while an honest party's Binding over TLS must still be answered; client state 'stun-only' (no TURN server configured); 1 of 40 cases: a scripted server whose Allocate and Refresh successes carry LIFETIME 0 / 1 / 2 / 2^31 / 2^32-1: the client survives, sends at most 100 Refresh requests in 10 s and completes a follow-up transaction; lifetimes now also 30/59/60/61/119/120/600/3600 (2 of 40 cases); one liveness probe in three loses its first transmission and completes through a retransmission" +
+		Rule: "server cases: 200 hostile inputs per case (random, every 2-bit prefix x length-field extreme, ChannelData shapes, well-formed messages of every method/class signed or unsigned, signed-then-mutated, malformed-then-signed) delivered as UDP datagrams or as a TCP stream under random segmentation from a party that holds valid credentials, with a liveness probe after every 25 inputs (Binding from attacker and bystander, authenticated Refresh, relay both ways through a bystander's permission and channel, bystander snapshot unchanged, no mutex held); ; 3 of 40 cases: a real client against a scripted server that answers every Allocate / CreatePermission / ChannelBind with 438 and a fresh nonce for ever: each API call must give up after a bounded number of requests; 2 of 40 cases: a real client over a TCP control connection is fed garbage / cookie-less STUN / valid-then-garbage / truncated-then-EOF / out-of-range channel frames; stream inputs include maximum-length ChannelData and STUN frames (larger than the client's read buffer); 1 of 40 cases wraps the listener in TLS (crypto/tls over the simulated stream): parties that connect and send nothing, a few bytes, a record header, the start of a ClientHello or garbage linger while an honest party's Binding over TLS must still be answered; client state 'stun-only' (no TURN server configured); 1 of 40 cases: a scripted server whose Allocate and Refresh successes carry LIFETIME 0 / 1 / 2 / 2^31 / 2^32-1: the client survives, sends at most 100 Refresh requests in 10 s and completes a follow-up transaction; lifetimes now also 30/59/60/61/119/120/600/3600 (2 of 40 cases); one liveness probe in three loses its first transmission and completes through a retransmission; one input in twelve is a well-formed request under a valid MESSAGE-INTEGRITY whose NONCE the sender made up (empty, one or two characters, not base36, 128/763 characters, the server's own nonce cut, extended, lower-cased or with one character changed)" +
 			"client cases: datagrams handed to Client.HandleInbound in several client states with a blocked-call detector, the documented (handled, error) table as classifier and a follow-up transaction; " +
 			"a crash with pion/turn frames, a busy loop (log-call budget) or a hang is a violation; non-trivial = distinct (transport, input class, length bucket) and (client state, input class) fingerprints",
 		NonTrivial: func(fp string) bool { return true },
@@ -169,7 +169,7 @@ func init() {
 		"responses are never placed exactly on a retransmission instant (ties are undetermined); +-1 ms offsets are used instead",
 		"go1.26.8 -race -tags verif build of /repo's working tree",
 	},
-		Rule: "fault enumeration over the 7 transmissions: every one of the 2^7 subsets of lost transmissions (quick: one response-delay policy and RTO per subset drawn from the PRNG; thorough: x 5 delay policies {0, half gap, next timer-1ms, next timer+1ms, after the schedule} x 7 RTOs), plus sampled cases of foreign-id/duplicate/late/echoed responses, 2-8 concurrent transactions with permuted answers, Client.Close after each transmission index, a write error on each transmission index, and a response delivered from inside the client's own WriteTo; ; plus (1 of 8 sampled cases) a response injected while retransmission k is being written under the client's transaction lock, the write then failing (2 of 3) or succeeding: exactly-once completion at the k-th schedule instant, no second result, lock probes, and a follow-up transaction that itself needs a retransmission; one case in three addresses its transactions to a host other than the configured TURN/STUN server; after a fire-and-forget call has returned the caller builds its next request in the same message value; Client.Close during the write of transmission k (k = 0 is the caller's own first write), the write then failing or succeeding: the call returns once with an error, Close returns; noise and concurrent cases use transaction ids that differ from an open one in a single bit or byte; in a quarter of the cases the scripted answers are error responses (codes 300-699): they complete a transaction like any response" +
+		Rule: "fault enumeration over the 7 transmissions: every one of the 2^7 subsets of lost transmissions (quick: one response-delay policy and RTO per subset drawn from the PRNG; thorough: x 5 delay policies {0, half gap, next timer-1ms, next timer+1ms, after the schedule} x 7 RTOs), plus sampled cases of foreign-id/duplicate/late/echoed responses, 2-8 concurrent transactions with permuted answers, Client.Close after each transmission index, a write error on each transmission index, and a response delivered from inside the client's own WriteTo; ; plus (1 of 8 sampled cases) a response injected while retransmission k is being written under the client's transaction lock, the write then failing (2 of 3) or succeeding: exactly-once completion at the k-th schedule instant, no second result, lock probes, and a follow-up transaction that itself needs a retransmission; one case in three addresses its transactions to a host other than the configured TURN/STUN server; after a fire-and-forget call has returned the caller builds its next request in the same message value; Client.Close during the write of transmission k (k = 0 is the caller's own first write), the write then failing or succeeding: the call returns once with an error, Close returns; noise and concurrent cases use transaction ids that differ from an open one in a single bit or byte; in a quarter of the cases the scripted answers are error responses (codes 300-699): they complete a transaction like any response; one sampled case in nine runs the whole turn.Client (Listen, Allocate with its 401 round, WriteTo to 1-4 peers, a Binding request, Close) on a network that delivers every response a second time 20-400 ms later while the Allocate success is held back longer than that: Allocate and the Binding request succeed with what the server answered to them, no two different requests on the wire carry the same transaction id, the table is empty afterwards" +
 			"oracle: arrival offsets must equal the arithmetic schedule (RTO doubling, 1.6 s cap), count and return instant exact, identity tag of the first matching response, empty transaction table (hook) afterwards; non-trivial = distinct (situation, parameters, RTO) fingerprints",
 		NonTrivial: func(fp string) bool { return true },
 		Exhaustive: func(tier string, ev map[string]int) bool { return ev["loss-subset-covered"] >= 128 },
@@ -182,7 +182,7 @@ func init() {
 		"happens-before is taken from the server's wire log: a response counts as delivered when it is handed to the client's socket",
 		"server-side expiry of permissions is not modelled here (the statement is about the client's ordering obligations); go1.26.8 -race -tags verif build",
 	},
-		Rule: "per case 1-12 peers (every 17th case 64-263, one thorough case 16384), several sharing an IP; a random sequence of sequential and concurrent WriteTo, inbound Data indications / ChannelData on known and unknown channels (some payloads starting with the magic cookie), read-deadline probes, virtual-time jumps across the permission/binding refresh timers, 1100-datagram bursts without a reader, Close; server reactions to CreatePermission/ChannelBind drawn from {success, 400, 403, 438 with fresh nonce (1-4 in a row), silence}; every 7th case: a TCP allocation receives 5-40 ConnectionAttempt indications nobody accepts, followed by a liveness transaction; ; every 20th case: first-writer stampede (6 goroutines released together make the first WriteTo to each of 150/600 new peers); deadline setters are re-armed after a consumed timeout and moved before expiry, each call under a virtual-time watch; before Close a reader is blocked in ReadFrom, one time in three the socket toward the server fails from then on; half of the UDP cases allocate a second time on the same client; every 30th case is the real-server end-to-end case of C05 (UDP and TCP control connection); one Close in three races with a Client.CreatePermission answered 300 ms late and an inbound datagram; the stampede case (every 20th) ends with five writes to a link-local IPv6 peer named with its zone: one binding, one channel number; every other UDP case an empty datagram reaches the client's socket right after Allocate (from the server's address or a stranger's); half of the op-5 steps let two strangers on different hosts speak in turn and answer each at the very address value ReadFrom reported; every 7th case refuses every ChannelBind with 403 while writes go on for more than a binding refresh interval (no ChannelData on an unconfirmed number); every 5th case the peers are IPv6 hosts of one prefix; one liveness probe in three needs a retransmission" +
+		Rule: "per case 1-12 peers (every 17th case 64-263, one thorough case 16384), several sharing an IP; a random sequence of sequential and concurrent WriteTo, inbound Data indications / ChannelData on known and unknown channels (some payloads starting with the magic cookie), read-deadline probes, virtual-time jumps across the permission/binding refresh timers, 1100-datagram bursts without a reader, Close; server reactions to CreatePermission/ChannelBind drawn from {success, 400, 403, 438 with fresh nonce (1-4 in a row), silence}; every 7th case: a TCP allocation receives 5-40 ConnectionAttempt indications nobody accepts, followed by a liveness transaction; ; every 20th case: first-writer stampede (6 goroutines released together make the first WriteTo to each of 150/600 new peers); deadline setters are re-armed after a consumed timeout and moved before expiry, each call under a virtual-time watch; before Close a reader is blocked in ReadFrom, one time in three the socket toward the server fails from then on; half of the UDP cases allocate a second time on the same client; every 30th case is the real-server end-to-end case of C05 (UDP and TCP control connection); one Close in three races with a Client.CreatePermission answered 300 ms late and an inbound datagram; the stampede case (every 20th) ends with five writes to a link-local IPv6 peer named with its zone: one binding, one channel number; every other UDP case an empty datagram reaches the client's socket right after Allocate (from the server's address or a stranger's); half of the op-5 steps let two strangers on different hosts speak in turn and answer each at the very address value ReadFrom reported; every 7th case refuses every ChannelBind with 403 while writes go on for more than a binding refresh interval (no ChannelData on an unconfirmed number); every 5th case the peers are IPv6 hosts of one prefix; one liveness probe in three needs a retransmission; some steps call the public Client.CreatePermission for a peer (the scripted server may refuse or stay silent) and write to that peer next" +
 			"oracle: ordering over the wire log (no Send/ChannelData before the matching success was delivered, payload tag names the peer it was written for), uniqueness/range of channel numbers on the wire and in the hooked binding table, FIFO equality of ReadFrom results with what was relayed, deadlines at exact virtual instants; non-trivial = distinct operation/outcome fingerprints",
 		NonTrivial: func(fp string) bool { return true },
 	}
@@ -200,11 +200,12 @@ func init() {
 
 func init() {
 	metaTable["C16"] = propMeta{Level: "exploration", Assumptions: append(append([]string{}, commonAssumptions...),
-		"TCP between client/peer and server is a simulated reliable byte stream with PRNG-chosen read segmentation",
+		"TCP between client/peer and server is a simulated reliable byte stream with PRNG-chosen read segmentation (except the 1-in-100 loopback case, which uses the kernel's TCP)",
 		"a client that pipelines application data behind ConnectionBind before its success response is outside RFC 6062 and not generated"),
 		Rule: "1-3 TCP allocations on TCP control connections; random sequences of Connect (listening peer / nobody listening / duplicate), inbound peer connections from permitted and unpermitted IPs, ConnectionBind on fresh data connections (right, wrong id, wrong user, repeated; at <=29 s and >=31 s), byte streams of 0..64 KiB both ways under random segmentation, closes from either side, jumps to 29 s / 31 s after creation; after duplicate Connect, ConnectionBind and close steps the manager locks must be free (hook) and an authenticated Refresh must be answered; ; the real-client cases draw the relay sockets from the harness' ledger generator or from pion/turn's own Static / PortRange / None generators (over the simulated transport.Net) and compare the address the peer sees with the relayed address; peers send a greeting before the client has bound the data connection (it must be the first bytes read); every 25th case: another client's allocation reaches its lifetime while a Connect dials a peer that takes 20 s; unpermitted inbound connections preferably come from hosts the allocation connected to; bound pairs stay in use for 10-21 minutes with the allocation refreshed; peers that refused connections start listening later; Connect on a second control connection of the same user that holds no allocation; in half of the slow-Connect cases the Connect's own allocation expires during the dial" +
 			"one pipe step in three stalls the receiving side for 7/12/40 s behind a 4 KiB window while 20-200 kB are sent to it: everything arrives afterwards, the pair stays open; " +
 			"every other raw case hands the server bare net.Conn values (no ReadFrom/WriteTo: the relay's copy loops use their own buffers); every other real-client case a second client has allocated and dialled out through the same generator before; " +
+			"one case in a hundred uses operating-system TCP sockets on loopback in real time: real server with the Static or None generator, real client over a TCP control connection, DialTCP to a peer that reads through a 16 KiB receive buffer with 0-2 ms pauses; the client writes 64 KiB / 1 MiB / 3 MiB and closes at once: the peer reads every byte, unchanged, then a clean end of stream (wall-clock waits of 60-90 s are watchdogs: inconclusive when they fire); " +
 			"oracle: model of peer connections (id, peer, age, bound) + byte-for-byte stream comparison at quiescent points; non-trivial = distinct (operation, situation, response code) fingerprints",
 		NonTrivial: func(fp string) bool { return true },
 	}
